@@ -20,10 +20,21 @@ Inductive term := TRet | TGoto (t : N) | TBr (a b : N).
 Definition block := (N * term)%type.
 
 (* ---- skeletons (explicit mutual lists so that the recursion is structural) *)
+(* what an operator-like expression does after its sub-expressions (needed by the locals model;
+   the CFG builder only needs to know whether a statement is emitted) *)
+Inductive opk :=
+| KPass                 (* nothing: returns its last operand / a constant (format string with <= 1 part) *)
+| KTmp                  (* one temporary, one statement: binary, unary, member, cast, index, literals, named call ... *)
+| KVoid                 (* a statement without result temporary: index assignment, discarded call of type null *)
+| KAssign (x : N)       (* assignment to name x: a local (no temporary) or a global (call) *)
+| KConcat (n : N)       (* format string with n+1 operands: n temporaries, n statements *)
+| KCall (void : bool).  (* call through a function value: the last sub-expression is the callee *)
+Definition emits_of (k : opk) : bool := match k with KPass => false | _ => true end.
+
 Inductive sexpr :=
 | EAtom                                   (* literal: no statement, no block *)
 | EIdent (x : N)                          (* local => nothing, otherwise one emitted global get *)
-| EOp (emits : bool) (args : sexprs)      (* sub-expressions left to right, then (maybe) an emitted statement *)
+| EOp (k : opk) (args : sexprs)           (* sub-expressions left to right, then what [k] says *)
 | EShort (is_and : bool) (l r : sexpr)    (* and / or *)
 | EIfE (c t e : sexpr)                    (* if-expression *)
 | ELam (caps params : list N) (body : sstmts)
@@ -150,7 +161,7 @@ Fixpoint lower_expr (e : sexpr) (s : st) : st :=
   match e with
   | EAtom => s
   | EIdent x => if memN x (names s) then s else emit s
-  | EOp emits args => let s1 := lower_exprs args s in if emits then emit s1 else s1
+  | EOp k args => let s1 := lower_exprs args s in if emits_of k then emit s1 else s1
   | EShort is_and l r =>
       let s1 := emit (lower_expr l s) in
       let '(er, s2) := alloc s1 in
